@@ -113,6 +113,10 @@ func c19Gen(t *rapid.T) c19In {
 	case "Transform":
 		in.Attr = rapid.SampledFrom([]string{"none", "tv", "tlv"}).Draw(t, "attr")
 		in.U16a &= 0x7fff
+		if rapid.Bool().Draw(t, "keylength-attr") {
+			in.U16a = 14 // Key Length, with values that mean something as bits or as octets
+			in.U16b = rapid.SampledFrom([]uint16{0, 8, 16, 24, 32, 64, 128, 192, 256, 512, 1024, 2048}).Draw(t, "keylength")
+		}
 		in.B1 = gen.BytesLen(t, "var", 1, 300, 1, 2)
 		in.U8a = uint8(rapid.IntRange(1, 5).Draw(t, "ttype"))
 	case "NotifyNAS_TCP_PORT":
@@ -143,8 +147,12 @@ func c19Wire(p message.IKEPayload) (*model.Payload, error) {
 // c19Oracle hands every octet-string argument to the builders as a view into a larger buffer (spare capacity, guard octets
 // behind it - what an argument cut out of a received message looks like) in every other case, and demands that neither the
 // argument nor the memory behind it was written to when the builder (and the encoding of what it built) is done.
+// c19Built: model of the payload the last successful builder call appended (set by c19Oracle1)
+var c19Built *model.Payload
+
 func c19Oracle(in c19In) probe.Outcome {
 	var unchanged []func() error
+	c19Built = nil
 	carve := (int(in.U8a)+len(in.B1))%2 == 1
 	o := c19Oracle1(in, func(b model.Bytes) []byte {
 		if !carve || len(b) == 0 {
@@ -154,6 +162,17 @@ func c19Oracle(in c19In) probe.Outcome {
 		unchanged = append(unchanged, chk)
 		return v[0]
 	})
+	// the same builder call once more on a container that now ENDS with the payload just built (a second notify with the same
+	// values, the same vendor id twice, ...): again exactly one payload is appended, equal to the arguments
+	if o.Err == nil && c19Built != nil && in.U8b%3 == 0 && c19Built.Kind != model.KRaw && len(model.JSON(*c19Built)) < 20000 {
+		in2 := in
+		in2.Prior = append(append([]model.Payload(nil), in.Prior...), *c19Built)
+		c19Built = nil
+		if o2 := c19Oracle1(in2, func(b model.Bytes) []byte { return append([]byte(nil), b...) }); o2.Err != nil {
+			return probe.Fail("second call with the same arguments, the container already ending with an identical payload: %v", o2.Err)
+		}
+		o.Labels = append(o.Labels, "same-call-twice")
+	}
 	if o.Err == nil {
 		for _, chk := range unchanged {
 			if err := chk(); err != nil {
@@ -578,6 +597,7 @@ func c19Oracle1(in c19In, cp func(b model.Bytes) []byte) probe.Outcome {
 	if !bytes.Equal(model.JSON(gotModel.Normalize()), model.JSON(want.Normalize())) {
 		return probe.Fail("%s: fields of the appended payload differ from the arguments:\n got  %s\n want %s", in.Builder, model.Clip(model.JSON(gotModel.Normalize())), model.Clip(model.JSON(want.Normalize())))
 	}
+	c19Built = &gotModel
 	// the encoding, parsed independently, carries the arguments (3GPP layouts built by the reference)
 	if in.Builder == "Encrypted" {
 		return probe.Outcome{NonTrivial: true, Labels: labels} // its encoding is C06's business
